@@ -34,6 +34,13 @@ def run(tier, replay):
         for _ in range(40 if thorough else 8):
             hs.append({"id": len(hs) + 1, "theory": theory, "fam": -1,
                        "steps": histories.random_history(sig, api, rnd, rnd.randint(5, 16), 3 if theory not in ("semilattice",) else 2)})
+        # bulk histories on theories without `!`: dozens of elements and > 100 facts, so that single iterations
+        # apply large batches of tuples and equalities (code paths gated by batch size) and merges have weight ties
+        if not sig.models and not any(st["concl"]["kind"] == "def" for st in stages):
+            for _ in range(3 if thorough else 1):
+                hs.append({"id": len(hs) + 1, "theory": theory, "fam": -1,
+                           "steps": histories.random_history(sig, api, rnd, rnd.randint(110, 160), 24, p_close=0.01, p_until=0.01,
+                                                             allow_define=False, enum_prob=0.0)})
     hpath = os.path.join(work, "histories.ndjson")
     vlib.write_ndjson(hpath, hs)
     variants = [("plain", [], {}), ("no-aslr", ["setarch", "-R"], {}), ("prealloc", [], {"MODEL_DRIVER_PREALLOC": "5000"}),
